@@ -59,7 +59,9 @@ def render(seq, k, asm=None, asm_at=0, use=True):
                 d = 'void b%d_%d(void) { %s vf_sink = (void *)&%s; }' % (k, j, d, x + ('[0]' if dim else ''))
         else:
             if init:
-                d = '%sint %s(void)%s { %s }' % (sp, x, lab, 'for (;;) ;' if 'Noreturn' in spec else 'return %d;' % (j + 1))
+                # every other body names its function (the object behind __func__ belongs to the definition that is finally emitted, if any)
+                fn = 'vf_sink = (void *)__func__; ' if (k + j) % 2 == 0 else ''
+                d = '%sint %s(void)%s { %s%s }' % (sp, x, lab, fn, 'for (;;) ;' if 'Noreturn' in spec else 'return %d;' % (j + 1))
             else:
                 d = '%sint %s(void)%s;' % (sp, x, lab)
             if scope == 'block':
@@ -68,10 +70,18 @@ def render(seq, k, asm=None, asm_at=0, use=True):
             filevisible = True
         parts.append(d)
     if use and filevisible:
+        # the use is a function for every other identifier and a pointer object otherwise: after the history of an inline function the next
+        # external definition of the unit is then an object, not a function
+        tls = any('_Thread_local' in spec for kind, scope, spec, init in seq)
         if seq[0][0] == 'obj':
-            parts.append('void *u%d(void) { return (void *)&%s%s; }' % (k, x, '[0]' if dim else ''))
-        else:
+            if k % 2 == 0 or tls:
+                parts.append('void *u%d(void) { return (void *)&%s%s; }' % (k, x, '[0]' if dim else ''))
+            else:
+                parts.append('void *const u%d = (void *)&%s%s;' % (k, x, '[0]' if dim else ''))
+        elif k % 2 == 0:
             parts.append('int (*u%d(void))(void) { return %s; }' % (k, x))
+        else:
+            parts.append('int (*const u%d)(void) = %s;' % (k, x))
     return ' '.join(parts)
 
 
@@ -225,6 +235,9 @@ def _unit(args):
     cdefs, crefs, dups = il_symbols(m)
     for n in dups:
         out.append({'k': -1, 'violation': ('duplicate-definition', 'symbol %s is defined twice in one module' % n, '\n'.join(d.text for d in live2), None)})
+    for n in sorted(crefs):
+        if n.startswith('.L') and n not in cdefs:
+            out.append({'k': -1, 'violation': ('local-undefined', 'the module refers to the local symbol %s and does not define it' % n, '\n'.join(d.text for d in live2 if 'inline' in d.text or '__func__' in d.text)[:20000], None)})
     rsyms = ref_symbols(robj)
     csyms = ref_symbols(cobj)
     for d in live2:
